@@ -901,6 +901,9 @@ def header_cases():
     ef = []
     armc = consts(('EF_ARM_',))
     arm = set([0] + armc + [v | 0x05000000 for v in armc if v < 0x01000000] + [0x05800400, 0x05400200])
+    # every pair of the flags the clone decodes under EABI version 5 (a flag must not change how another one is described)
+    low = [v for v in armc if v < 0x01000000]
+    arm |= {a | b | 0x05000000 for i, a in enumerate(low) for b in low[i + 1:]}
     ef += [('EM_ARM', EM['ARM'], 32, v) for v in sorted(arm)]
     ef += [('EM_PPC64', EM['PPC64'], 64, v) for v in sorted(set([0] + consts(('EF_PPC64_',))))]
     mips = set([0] + consts(('EF_MIPS_', 'EFM_MIPS_')) + [0x70001007, 0x80000027, 0x50001105, 0x10000001, 0x60000024])
